@@ -53,11 +53,10 @@ LeftClasses(t) ==
 HasLiteral(t, c) == ~(c \in {"NAN", "PINF", "NINF", "notset"})
 Forms(t, c) == IF HasLiteral(t, c) THEN {"lit", "var"} ELSE {"var"}
 
-AssignCells ==
-  { [k |-> "assign", vt |-> vt, op |-> op, l |-> l, rt |-> rt, r |-> r, form |-> f]
-      : vt \in LeftTypes, op \in Ops, l \in UNION {LeftClasses(t) : t \in LeftTypes}, rt \in RightTypes,
-        r \in UNION {Classes(t) : t \in RightTypes}, f \in {"lit", "var"} }
-WellFormedAssign(c) == c.l \in LeftClasses(c.vt) /\ c.r \in Classes(c.rt) /\ c.form \in Forms(c.rt, c.r)
+AssignFam(vt, op) ==
+  UNION { { [k |-> "assign", vt |-> vt, op |-> op, l |-> x[1], rt |-> rt, r |-> x[2], form |-> x[3]]
+              : x \in {y \in LeftClasses(vt) \X Classes(rt) \X {"lit", "var"} : y[3] \in Forms(rt, y[2])} }
+          : rt \in RightTypes }
 
 (* mechanism: does the assignment produce a value or a reported error? *)
 IsZeroInt(c) == c = "0"
@@ -65,6 +64,7 @@ IsZeroFloat(c) == c = "0.0"
 TruncZeroFloat(c) == c \in {"0.0", "0.5"}                 \* int64(x) = 0
 NegInt(c) == c \in {"-1", "-64", "MIN"}
 Var(f) == f = "var"
+Exotic(c) == c \in {"NAN", "PINF", "NINF", "BIG", "MAX", "MIN", "P31"}
 \* type arms of interpreter/assign/*.go: TRUE = the (left type, right type, form) combination is accepted
 ArmAssign(vt, rt, f) ==
   CASE vt = "INTEGER" -> rt = "INTEGER" \/ (rt \in {"FLOAT", "RTIME"} /\ Var(f))
@@ -92,12 +92,12 @@ PredictLocal(c) ==
     [] op = "+=" -> ok(ArmAddSub(vt, rt, f, TRUE))
     [] op = "-=" -> ok(ArmAddSub(vt, rt, f, FALSE))
     [] op = "*=" -> ok(ArmMulDiv(vt, rt, f))
-    [] op = "/=" -> ok(ArmMulDiv(vt, rt, f) /\ ~(rt = "INTEGER" /\ IsZeroInt(r)) /\ ~(rt = "FLOAT" /\ IsZeroFloat(r)))
+    [] op = "/=" -> IF ArmMulDiv(vt, rt, f) /\ rt = "FLOAT" /\ r \in {"NAN", "PINF", "NINF"} THEN "any"    \* flagged values carry a zero payload
+                    ELSE ok(ArmMulDiv(vt, rt, f) /\ ~(rt = "INTEGER" /\ IsZeroInt(r)) /\ ~(rt = "FLOAT" /\ IsZeroFloat(r)))
     [] op = "%=" -> IF ~ArmMulDiv(vt, rt, f) THEN "error"
-                    ELSE IF c.l \in {"PINF", "NINF"} \/ r \in {"PINF", "NINF"} THEN "value"     \* the infinity arms come first
+                    ELSE IF Exotic(c.l) \/ Exotic(r) THEN "any"       \* infinity / NaN flags and overflowing products: not predicted
                     ELSE IF rt = "INTEGER" THEN ok(~IsZeroInt(r))
-                    ELSE IF vt = "RTIME" THEN ok(~TruncZeroFloat(r) /\ r # "NAN")
-                    ELSE ok(~TruncZeroFloat(r) /\ r # "NAN" \/ r = "NAN")
+                    ELSE ok(~TruncZeroFloat(r))
     [] op \in {"|=", "&=", "^=", "rol=", "ror="} -> ok(vt = "INTEGER" /\ rt = "INTEGER")
     [] op \in {"<<=", ">>="} -> ok(vt = "INTEGER" /\ rt = "INTEGER" /\ ~NegInt(r))
     [] op \in {"||=", "&&="} -> ok(vt = "BOOL" /\ rt = "BOOL")
@@ -115,11 +115,10 @@ AllVectors(n) == [1..n -> 1..NClasses]
 Star(n) == {[i \in 1..n |-> k] : k \in 1..NClasses} \cup
            {[i \in 1..n |-> IF i = j THEN k ELSE b] : j \in 1..n, k \in 1..NClasses, b \in {1, 2}}
 Vectors(n, full) == IF n = 0 THEN {<<>>} ELSE IF full /\ n <= 2 THEN AllVectors(n) ELSE Star(n)
-BuiltinCells(full) ==
-  UNION { UNION { { [k |-> "builtin", fn |-> Builtins[i].fn, scope |-> Builtins[i].scope, ret |-> Builtins[i].ret,
-                     types |-> Builtins[i].sigs[j], classes |-> v] : v \in Vectors(Len(Builtins[i].sigs[j]), full) }
-                  : j \in 1..Len(Builtins[i].sigs) }
-          : i \in 1..Len(Builtins) }
+BuiltinFam(i, full) ==
+  UNION { { [k |-> "builtin", fn |-> Builtins[i].fn, scope |-> Builtins[i].scope, ret |-> Builtins[i].ret,
+             types |-> Builtins[i].sigs[j], classes |-> v] : v \in Vectors(Len(Builtins[i].sigs[j]), full) }
+          : j \in 1..Len(Builtins[i].sigs) }
 
 -----------------------------------------------------------------------------
 (* call graphs: nodes 0 = vcl_recv, 1..3 = subroutines s1..s3; an edge i -> j is a `call sj;` in the body of i.      *)
@@ -143,7 +142,9 @@ Mods == 0..2
 IncEdgeSets == SUBSET (Mods \X Mods)
 IncCyclic(E) == \E n \in Reach(E, {0}) : n \in Reach(E, Succ(E, n)) /\ Succ(E, n) # {}
 IncludeCells == { [k |-> "include", edges |-> {<<e[1], e[2]>> : e \in E}, cyclic |-> IncCyclic(E)] : E \in IncEdgeSets }
-PredictInclude(c) == IF c.cyclic THEN "error" ELSE "value"
+\* a module reached along two paths is expanded twice and its declarations collide: not predicted
+PredictInclude(c) == IF c.cyclic THEN "error"
+                     ELSE IF \E n \in Mods : Cardinality({e \in c.edges : e[2] = n}) > 1 THEN "any" ELSE "value"
 
 -----------------------------------------------------------------------------
 VARIABLES phase, item
@@ -156,8 +157,8 @@ Keys == CASE Mode = "assign"  -> {<<vt, op>> : vt \in LeftTypes, op \in Ops}
           [] Mode = "calls"   -> {<<n, 0>> : n \in 1..MaxReq}
           [] Mode = "include" -> {<<0, 0>>}
 Fam(key) ==
-  CASE Mode = "assign"  -> {c \in AssignCells : c.vt = key[1] /\ c.op = key[2] /\ WellFormedAssign(c)}
-    [] Mode \in {"builtin", "builtin-full"} -> {c \in BuiltinCells(Mode = "builtin-full") : c.fn = Builtins[key[1]].fn}
+  CASE Mode = "assign"  -> AssignFam(key[1], key[2])
+    [] Mode \in {"builtin", "builtin-full"} -> BuiltinFam(key[1], Mode = "builtin-full")
     [] Mode = "calls"   -> {c \in CallCells : c.nreq = key[1]}
     [] Mode = "include" -> IncludeCells
 Predict(c) == CASE c.k = "assign" -> PredictAssign(c) [] c.k = "builtin" -> "any" [] c.k = "calls" -> PredictCalls(c)
@@ -170,7 +171,7 @@ Spec == Init /\ [][Next]_vars
 \* REQUIREMENT: the only admissible outcomes
 Allowed == {"value", "error"}
 \* mechanism |= requirement on the model: every prediction is an admissible outcome, the guarded depth is bounded
-PredictionAdmissible == (phase = "emit") => (Predict(item) \in Allowed \cup {"any"})
+PredictionAdmissible == (phase = "emit") => (Predict(item) \in Allowed \cup {"any"})     \* "any" = not predicted
 DepthBounded == (phase = "emit" /\ item.k = "calls") => item.depth <= Guard + 1
 EmitInv == (phase = "emit") => PrintT(<<"BEHAVIOUR", ToJson([case |-> item, allowed |-> Allowed, predict |-> Predict(item)])>>)
 =============================================================================
